@@ -24,8 +24,9 @@ type Item struct {
 }
 
 type Op struct {
-	O  string `json:"o"` // push (1 or k items), pop, peek, clear, load (FromJSON of Items), values
-	Is []Item `json:"is,omitempty"`
+	O    string `json:"o"` // push (1 or k items), pop, peek, clear, load (FromJSON of Items), values
+	Is   []Item `json:"is,omitempty"`
+	Omit bool   `json:"omit,omitempty"` // load: the document omits the ID field of every item ({"P":p}), which denotes ID 0
 }
 
 type Case struct {
@@ -225,9 +226,22 @@ func check(c Case) (pbt.Info, error) {
 			model = map[Item]int{}
 			total = 0
 		case "load":
+			if op.Omit {
+				for j := range op.Is {
+					op.Is[j].ID = 0 // what the document denotes
+				}
+			}
 			data, _ := json.Marshal(op.Is)
 			if op.Is == nil {
 				data = []byte("[]")
+			}
+			if op.Omit {
+				type partial struct{ P int }
+				ps := make([]partial, len(op.Is))
+				for j, it := range op.Is {
+					ps[j] = partial{it.P}
+				}
+				data, _ = json.Marshal(ps)
 			}
 			if err := h.load(data); err != nil {
 				return info, fmt.Errorf("step %d: FromJSON(%s) failed: %v", i, data, err)
@@ -310,7 +324,7 @@ func gen(kind string) func(t *rapid.T) Case {
 			case 5:
 				c.Ops = append(c.Ops, Op{O: "clear"})
 			case 6:
-				c.Ops = append(c.Ops, Op{O: "load", Is: items(rapid.IntRange(0, 9).Draw(t, "k"))})
+				c.Ops = append(c.Ops, Op{O: "load", Is: items(rapid.IntRange(0, 9).Draw(t, "k")), Omit: rapid.IntRange(0, 3).Draw(t, "omit") == 0})
 			}
 		}
 		return c
